@@ -91,12 +91,29 @@ def oracle(case, R):
     gen, d, v = ts.generator(nt, F0, d0, v0, static_ic=static_ic)
     force = np.zeros((n, nt))
     force[:, 0] = F0
+    # magnitude of everything that was ever added to a force column: add-ons that cancel (1 - 3 + 2) leave a
+    # zero model force but a response of round-off size, whose natural scale is that of the add-ons
+    fabs = np.zeros((n, nt))
+    fabs[:, 0] = np.abs(F0)
     last = 0
+    # eigen path (complex modes): generator and batch share the eigensolution but sum in a different order,
+    # which costs eps * cond(V) (V = unit-norm eigenvectors of the elastic state matrix; measured 1.2 eps nt cond(V))
+    kapV = 1.0
+    el_ = S["idx"].get("el") or []
+    if not ts.unc and el_:
+        ix_ = np.ix_(el_, el_)
+        Mm_ = np.diag(S["m"])[ix_]
+        A_ = np.block([[-np.linalg.solve(Mm_, S["B"][ix_]), -np.linalg.solve(Mm_, np.diag(S["k"])[ix_])],
+                       [np.eye(len(el_)), np.zeros((len(el_), len(el_)))]])
+        V_ = np.linalg.eig(A_)[1]
+        kapV = max(1.0, float(np.linalg.cond(V_ / np.linalg.norm(V_, axis=0))) / 100.0)
+    R.metric("cond(V)/100", kapV)
     # natural magnitudes (see C01): acceleration terms, velocity and displacement changes per step
     Mo = np.diag(S["m"])
     iM = 1.0 / S["m"]
 
     def scales(sol_d, sol_v, Fh):
+        Fh = np.maximum(np.abs(Fh), fabs[:, :Fh.shape[1]])
         term_a = (iM[:, None] * (np.abs(Fh) + np.abs(S["B"]) @ np.abs(sol_v)
                                  + np.abs(S["k"])[:, None] * np.abs(sol_d))).max()
         nsteps = Fh.shape[1]
@@ -108,7 +125,7 @@ def oracle(case, R):
     def check_state(tag):
         ref = mk().tsolve(force[:, :last + 1], d0, v0, static_ic=static_ic)
         sd, sv, sa = scales(ref.d, ref.v, force[:, :last + 1])
-        tol = CTOL * EPS * (last + 1)
+        tol = CTOL * EPS * (last + 1) * kapV
         ed = np.abs(d[:, :last + 1] - ref.d).max() / sd
         ev = np.abs(v[:, :last + 1] - ref.v).max() / sv
         R.metric("state_d/tol", ed / tol)
@@ -129,12 +146,14 @@ def oracle(case, R):
             f = np.array(op[1], float)
             last += 1
             force[:, last] = f
+            fabs[:, last] = np.abs(f)
             gen.send((last, f))
             if pending_addon:
                 nontriv_addon = True
         elif kind == "redo":
             f = np.array(op[1], float)
             force[:, last] = f
+            fabs[:, last] = np.abs(f)
             gen.send((last, f))
             nontriv_redo = True
             pending_addon = False
@@ -144,12 +163,15 @@ def oracle(case, R):
             last = i
             force[:, last] = f
             force[:, last + 1:] = 0.0
+            fabs[:, last] = np.abs(f)
+            fabs[:, last + 1:] = 0.0
             gen.send((last, f))
             nontriv_redo = True
             pending_addon = False
         elif kind == "addon":
             f = np.array(op[1], float)
             force[:, last] += f
+            fabs[:, last] += np.abs(f)
             gen.send((-1, f))
             pending_addon = True
         elif kind == "f2x":
@@ -191,7 +213,7 @@ def oracle(case, R):
     sol = ts.finalize(get_force=get_force)
     ref = mk().tsolve(force, d0, v0, static_ic=static_ic)
     sd, sv, sa = scales(ref.d, ref.v, force)
-    tol = CTOL * EPS * nt
+    tol = CTOL * EPS * nt * kapV
     for q, sc in (("d", sd), ("v", sv), ("a", sa)):
         e = np.abs(getattr(sol, q) - getattr(ref, q)).max() / sc
         R.metric(f"final_{q}/tol", e / tol)
